@@ -9,6 +9,7 @@ import (
 
 	simrt "verif/sim/rt"
 	"verif/sim/satomic"
+	"verif/sim/srand"
 	"verif/sim/ssync"
 	"verif/sim/stime"
 )
@@ -327,5 +328,33 @@ func TestSpinWaitIsNotStarved(t *testing.T) {
 				}
 			}
 		}
+	}
+}
+
+// math/rand's global functions are scheduler draws inside a simulation: equal
+// seeds give equal values, and the values are in the decision log.
+func TestGlobalRandIsAReplayableDraw(t *testing.T) {
+	run := func(seed uint64) ([]int, *simrt.Outcome) {
+		s := simrt.New(simrt.Config{Seed: seed, Strategy: simrt.StratRandom})
+		var got []int
+		s.Go(func() {
+			for i := 0; i < 5; i++ {
+				got = append(got, srand.Intn(1000))
+			}
+			srand.Shuffle(4, func(i, j int) {})
+		})
+		return got, s.Run()
+	}
+	a, oa := run(7)
+	b, ob := run(7)
+	c, _ := run(8)
+	if fmt.Sprint(a) != fmt.Sprint(b) || oa.Hash != ob.Hash {
+		t.Fatalf("same seed, different values: %v %v", a, b)
+	}
+	if fmt.Sprint(a) == fmt.Sprint(c) {
+		t.Fatalf("different seeds, same values: %v", a)
+	}
+	if len(oa.Draws) < 5 {
+		t.Fatalf("draws not logged: %v", oa.Draws)
 	}
 }
